@@ -124,7 +124,7 @@ def scale(job, kind, mode, tier):
                                 groups.append(("condensation_heat", [(lift(ma.permeate_condensation_heat[i]), lift(mb.permeate_condensation_heat[i]), f)]))
                             for gname, eq in groups:
                                 st = job.prove(tag + "/step%d/%s" % (i, gname), cs + lemmas, [y != fac * x for (x, y, fac) in eq], R_, inputs,
-                                               fallback=fb, congruence=cg, timeout=30, near=2)
+                                               fallback=fb, congruence=cg, timeout=30 if tier == "quick" else 150, near=2)
                                 if st == "discharged":
                                     lemmas += [y == fac * x for (x, y, fac) in eq]
                         # fluxes at step 0 never depend on area, feed amount or step length
